@@ -36,6 +36,10 @@ Bad(W) ==
        <<\E s \in RangeOf(W.subs) : \E k \in Bits(n, s[1]) : s[k + 1] # doc[k], "C07.subgraph">>,
        <<~ValidOrder(n, deps, doc, all, W.order), "C07.order">>,
        <<~ValidOrder(n, deps, doc2, all, W.order2), "C07.order-reconf">>,
+       \* C06 at max_concurrency = 1: every node that is started has the greatest documented compound priority among the
+       \* ready ones - on DAGs as described, as obtained through compose(), and after a reload
+       <<~ValidOrder(n, deps, doc, all, W.order), "C06.order">>,
+       <<~ValidOrder(n, deps, doc2, all, W.order2), "C06.order-reconf">>,
        <<~LemmaPathIndependent(n, deps, W.prio), "LEMMA.path">>,
        <<~LemmaMonotone(n, deps, W.prio), "LEMMA.monotone">>})
 
